@@ -61,6 +61,11 @@ theorem cfFrames_getElem? (c : TxCfg) (ds : List Bytes) : ∀ (sn i : Nat),
 /-- a payload of `n` bytes needs a First Frame -/
 def NeedsFF (tc : TxCfg) (n : Nat) : Prop := ¬ sfShort tc n ∧ ¬ sfEscape tc n
 
+instance (tc : TxCfg) (n : Nat) : Decidable (NeedsFF tc n) := inferInstanceAs (Decidable (_ ∧ _))
+
+/-- number of values `startTx` pulls for frame 0: the whole payload for a Single Frame, else the First Frame part -/
+def firstPull (tc : TxCfg) (n : Nat) : Nat := if NeedsFF tc n then ffRoom tc n else n
+
 theorem sfShort_iff (tc : TxCfg) (n : Nat) :
     sfShort tc n ↔ tc.pre.length + 1 + n ≤ 8 ∧ floorLen tc ≤ 8 := by
   unfold sfShort padTarget
@@ -408,6 +413,179 @@ theorem transmitCf_eq (s : State) (allowed : Nat) (p : Bytes) (k : Nat) (r : Req
     · rw [if_neg hal]; left; rfl
   · rw [if_neg hto]; left; rfl
 
+@[simp] theorem stopSending_cfg (s : State) (b : Bool) : (s.stopSending b).cfg = s.cfg := by
+  unfold stopSending; cases s.active <;> rfl
+@[simp] theorem stopSending_addr (s : State) (b : Bool) : (s.stopSending b).addr = s.addr := by
+  unfold stopSending; cases s.active <;> rfl
+@[simp] theorem stopSending_exc (s : State) (b : Bool) : (s.stopSending b).exc = s.exc := by
+  unfold stopSending; cases s.active <;> rfl
+@[simp] theorem stopSending_txState (s : State) (b : Bool) : (s.stopSending b).txState = .idle := by
+  unfold stopSending; cases s.active <;> rfl
+@[simp] theorem stopSending_active (s : State) (b : Bool) : (s.stopSending b).active = none := by
+  unfold stopSending; cases h : s.active <;> simp [h]
+@[simp] theorem stopSending_standby (s : State) (b : Bool) : (s.stopSending b).standby = none := by
+  unfold stopSending; cases s.active <;> rfl
+@[simp] theorem stopSending_txQueue (s : State) (b : Bool) : (s.stopSending b).txQueue = s.txQueue := by
+  unfold stopSending; cases s.active <;> rfl
+theorem stopSending_log (s : State) (b : Bool) (r : Req) (h : s.active = some r) :
+    (s.stopSending b).log = Ev.done r.id b :: s.log := by
+  unfold stopSending; rw [h]; rfl
+
+@[simp] theorem stopSending_now (s : State) (b : Bool) : (s.stopSending b).now = s.now := by
+  unfold stopSending; cases s.active <;> rfl
+
+
+/-! ### generators that end early -/
+
+/-- `r` after a pull that hit the end of the generator -/
+def Req.drained (r : Req) : Req :=
+  { r with src := [], consumed := r.consumed + r.src.length, depletedFlag := true }
+
+theorem consume_short (r : Req) (n : Nat) (e : Bool) (hle : r.consumed ≤ r.size) (hn : n ≤ r.remaining)
+    (hs : r.src.length < n) :
+    r.consume n e = (Req.drained r, if e then none else some r.src) := by
+  simp only [Req.remaining] at hn
+  unfold Req.consume
+  have ht : r.src.take n = r.src := List.take_of_length_le (by omega)
+  have hd : r.src.drop n = [] := List.drop_eq_nil_of_le (by omega)
+  simp only [ht, hd]
+  rw [if_neg (by omega), if_pos hs]
+  cases e <;> rfl
+
+theorem consumeActive_short (s : State) (r : Req) (n : Nat) (e : Bool) (hle : r.consumed ≤ r.size)
+    (hn : n ≤ r.remaining) (hs : r.src.length < n) :
+    s.consumeActive r n e =
+      ({ s with active := some (Req.drained r), log := pullLog r r.src.length ++ s.log }, Req.drained r,
+        if e then none else some r.src) := by
+  unfold consumeActive
+  rw [consume_short r n e hle hn hs]
+  simp only [Req.drained, pullLog, Nat.add_sub_cancel_left]
+  split <;> simp [emit]
+
+/-- the transfer of `r` was aborted because its generator ended early: what was left has been pulled, then
+    `BadGeneratorError` is reported, the request completed with failure and the FSM idle -/
+structure BadGen (s s' : State) (r : Req) : Prop where
+  cfg : s'.cfg = s.cfg
+  addr : s'.addr = s.addr
+  exc : s'.exc = s.exc
+  txState : s'.txState = .idle
+  active : s'.active = none
+  standby : s'.standby = none
+  txQueue : s'.txQueue = s.txQueue
+  log : s'.log = Ev.done r.id false :: Ev.err s.now .BadGenerator :: (pullLog r r.src.length ++ s.log)
+
+theorem BadGen.mk' (s1 : State) (s : State) (r : Req) (h1 : s1.cfg = s.cfg) (h2 : s1.addr = s.addr) (h3 : s1.exc = s.exc)
+    (h4 : s1.txQueue = s.txQueue) (h5 : s1.now = s.now) (h6 : s1.active = some (Req.drained r))
+    (h7 : s1.log = pullLog r r.src.length ++ s.log) :
+    BadGen s ((s1.error .BadGenerator).stopSending false) r := by
+  refine ⟨by simp [State.error, emit, h1], by simp [State.error, emit, h2], by simp [State.error, emit, h3], by simp,
+    by simp, by simp, by simp [State.error, emit, h4], ?_⟩
+  rw [stopSending_log _ _ (Req.drained r) (by simp [State.error, emit, h6])]
+  simp [State.error, emit, h5, h7, Req.drained]
+
+theorem startTx_short (s : State) (r : Req) (allowed : Nat) (p : Bytes) (hv : s.cfg.valid = true)
+    (hf : Feeds r p) (h0 : r.consumed = 0)
+    (hs : r.src.length < firstPull (TxCfg.of s.cfg s.addr) p.length) :
+    (s.startTx r allowed).2 = none ∧ BadGen s (s.startTx r allowed).1 r := by
+  have hvt := valid_of s.cfg s.addr hv
+  have hdl := txDl_fix _ hvt
+  have hpre := hvt.pre
+  have hsz := hf.size
+  have hle := hf.le
+  unfold startTx
+  simp only [txPrefixLen, Req.remaining, h0, Nat.sub_zero, startTx_match_bigMin, sizeOnFirst_eq, hsz]
+  by_cases hff : NeedsFF (TxCfg.of s.cfg s.addr) p.length
+  · obtain ⟨hs1, hs2⟩ := hff
+    have hs2' : ¬ (s.addr.tx.txPrefix.length + 2 + p.length ≤ s.cfg.txDl) := fun hh => hs2 ⟨hs1, hh⟩
+    have hlt := ffRoom_lt _ _ ⟨hs1, hs2⟩ hvt
+    simp only [hs1, decide_false, Bool.false_eq_true, if_false]
+    rw [if_neg (by omega)]
+    have hroom : (if p.length ≤ 4095 then s.cfg.txDl - 2 - s.addr.tx.txPrefix.length
+        else s.cfg.txDl - 6 - s.addr.tx.txPrefix.length) = ffRoom (TxCfg.of s.cfg s.addr) p.length := rfl
+    simp only [hroom]
+    have hfp : firstPull (TxCfg.of s.cfg s.addr) p.length = ffRoom (TxCfg.of s.cfg s.addr) p.length := by
+      simp [firstPull, NeedsFF, hs1, hs2]
+    rw [hfp] at hs
+    rw [consumeActive_short { s with txFrameLen := p.length } r _ true hle
+      (by simp [Req.remaining, h0, hsz]; omega) hs]
+    simp only [if_true]
+    exact ⟨trivial, BadGen.mk' _ s r rfl rfl rfl rfl rfl rfl rfl⟩
+  · have hfp : firstPull (TxCfg.of s.cfg s.addr) p.length = p.length := by simp [firstPull, hff]
+    rw [hfp] at hs
+    have hsf : sfShort (TxCfg.of s.cfg s.addr) p.length ∨ sfEscape (TxCfg.of s.cfg s.addr) p.length := by
+      by_cases hs' : sfShort (TxCfg.of s.cfg s.addr) p.length
+      · exact Or.inl hs'
+      · by_cases he : sfEscape (TxCfg.of s.cfg s.addr) p.length
+        · exact Or.inr he
+        · exact absurd ⟨hs', he⟩ hff
+    have hcond : p.length + (if decide (sfShort (TxCfg.of s.cfg s.addr) p.length) = true then 1 else 2) +
+        s.addr.tx.txPrefix.length ≤ s.cfg.txDl := by
+      simp only [TxCfg.of] at hdl hpre
+      rcases hsf with h | h
+      · have h' := (sfShort_iff _ _).mp h
+        simp only [TxCfg.of] at h'
+        simp only [h, decide_true, if_true]; omega
+      · have h1' := h.1
+        have h2' := h.2
+        simp only [TxCfg.of] at h2'
+        simp only [h1', decide_false, Bool.false_eq_true, if_false]; omega
+    rw [if_pos hcond]
+    rw [consumeActive_short s r _ true hle (by simp [Req.remaining, h0, hsz]) hs]
+    simp only [if_true]
+    exact ⟨trivial, BadGen.mk' _ s r rfl rfl rfl rfl rfl rfl rfl⟩
+
+
+/-- `transmitCf` when the generator cannot fill the next Consecutive Frame: nothing happens (pacing / rate limiter),
+    or what is left is pulled, sent in a (short) Consecutive Frame if there is anything, and the transfer is aborted
+    with `BadGeneratorError` -/
+theorem transmitCf_short (s : State) (allowed : Nat) (p : Bytes) (r : Req) (rbs : Nat)
+    (hv : s.cfg.valid = true) (hact : s.active = some r) (hbs : s.remoteBs = some rbs) (hf : Feeds r p)
+    (hlt : r.consumed < p.length)
+    (hs : r.src.length < min (cfRoom (TxCfg.of s.cfg s.addr)) (p.length - r.consumed)) :
+    s.transmitCf allowed = (s, none, false) ∨
+    ((s.transmitCf allowed).2.1 =
+        (if r.src.length = 0 then none else
+          some (frameMsg s.cfg s.addr (s.addr.tx.txId .physical)
+            (padFrame (TxCfg.of s.cfg s.addr) (s.addr.tx.txPrefix ++ [u8 (0x20 + s.txSeq)] ++ r.src)))) ∧
+     BadGen s (s.transmitCf allowed).1 r) := by
+  have hvt := valid_of s.cfg s.addr hv
+  have hdl := txDl_fix _ hvt
+  have hpre := hvt.pre
+  have hsz := hf.size
+  have hle := hf.le
+  unfold transmitCf
+  rw [hbs, hact]
+  simp only []
+  by_cases hto : s.timerStmin.timedOut s.now = true
+  · rw [if_pos hto]
+    have hrm : r.remaining = p.length - r.consumed := by simp [Req.remaining, hsz]
+    have hroom' : s.cfg.txDl - 1 - s.txPrefixLen = cfRoom (TxCfg.of s.cfg s.addr) := rfl
+    simp only [hroom', hrm]
+    by_cases hal : min (cfRoom (TxCfg.of s.cfg s.addr)) (p.length - r.consumed) ≤ allowed
+    · rw [if_pos hal]
+      rw [consumeActive_short s r _ false hle (by rw [hrm]; omega) hs]
+      simp only [Bool.false_eq_true, if_false]
+      have hdep : (Req.drained r).depleted = true := by simp [Req.depleted, Req.drained]
+      have hrem' : (Req.drained r).remaining > 0 := by
+        simp only [Req.remaining, Req.drained, hsz]; omega
+      right
+      by_cases hL : r.src.length = 0
+      · have hL' : ¬ (r.src.length > 0) := by omega
+        simp only [hL', if_false, hdep, if_true, hrem', Bool.false_eq_true]
+        rw [if_pos hL]
+        exact ⟨rfl, BadGen.mk' _ s r rfl rfl rfl rfl rfl rfl rfl⟩
+      · have hL' : r.src.length > 0 := by omega
+        simp only [hL', if_true]
+        simp only [TxCfg.of] at hdl hpre
+        have hcr : cfRoom (TxCfg.of s.cfg s.addr) = s.cfg.txDl - 1 - s.addr.tx.txPrefix.length := rfl
+        rw [makeTxMsg_eq _ _ hv _ _ (by simp; omega) (by simp; omega)]
+        simp only [Bool.false_eq_true, if_false, hdep, if_true, hrem']
+        rw [if_neg hL]
+        exact ⟨rfl, BadGen.mk' _ s r rfl rfl rfl rfl rfl rfl rfl⟩
+    · rw [if_neg hal]; left; rfl
+  · rw [if_neg hto]; left; rfl
+
+
 /-! ### decomposition of `processTx` and the transmit progress invariant -/
 
 /-- the FSM `match` of `_process_tx` -/
@@ -486,8 +664,6 @@ theorem processTx_listen (s : State) (st : Nat) (hp : s.pendingFc = true) (hl : 
     unfold processTx
     simp only [hp, hst, hl, h0, if_true, Bool.not_true, Bool.false_eq_true, if_false]
 
-instance (tc : TxCfg) (n : Nat) : Decidable (NeedsFF tc n) := inferInstanceAs (Decidable (_ ∧ _))
-
 /-- `r0` is the request for payload `p` as it sits in the queue: nothing pulled yet -/
 def Fresh (r0 : Req) (p : Bytes) : Prop := Feeds r0 p ∧ r0.consumed = 0
 
@@ -512,7 +688,8 @@ def msgFor (s : State) (r0 : Req) (p : Bytes) (d : Bytes) : CanMsg := frameMsg s
 def TxParked (s : State) (r0 : Req) (p : Bytes) : Prop :=
   ∃ d0, (segment (TxCfg.of s.cfg s.addr) p)[0]? = some d0 ∧ s.standby = some (msgFor s r0 p d0) ∧
     ((s.txState = .sfStandby ∧ segment (TxCfg.of s.cfg s.addr) p = [d0] ∧
-        ¬ NeedsFF (TxCfg.of s.cfg s.addr) p.length ∧ s.active = some (Req.adv r0 p.length)) ∨
+        ¬ NeedsFF (TxCfg.of s.cfg s.addr) p.length ∧ s.active = some (Req.adv r0 p.length) ∧
+        p.length ≤ r0.src.length) ∨
      (s.txState = .ffStandby ∧ NeedsFF (TxCfg.of s.cfg s.addr) p.length ∧
         s.active = some (Req.adv r0 (carried (TxCfg.of s.cfg s.addr) p.length 1)) ∧
         s.txFrameLen = p.length ∧ s.txSeq = 1))
@@ -558,7 +735,7 @@ structure Aborted (s s' : State) (r0 : Req) : Prop where
 theorem TxInv.active {s : State} {r0 : Req} {p : Bytes} {k : Nat} (hi : TxInv s r0 p k) :
     ∃ c, s.active = some (Req.adv r0 c) := by
   rcases hi with ⟨-, d0, -, -, h | h⟩ | h
-  · exact ⟨_, h.2.2.2⟩
+  · exact ⟨_, h.2.2.2.1⟩
   · exact ⟨_, h.2.2.1⟩
   · exact ⟨_, h.2.2.2.1⟩
 
@@ -632,9 +809,13 @@ theorem handleFc_inv (s : State) (f : FcFrame) (r0 : Req) (p : Bytes) (k : Nat) 
 theorem Req.adv_adv (r : Req) (a b : Nat) : Req.adv (Req.adv r a) b = Req.adv r (a + b) := by
   simp [Req.adv, List.drop_drop, Nat.add_assoc]
 
-theorem Fresh.feeds_adv {r0 : Req} {p : Bytes} (h : Fresh r0 p) (c : Nat) (hc : c ≤ p.length)
-    (hs : c ≤ r0.src.length) : Feeds (Req.adv r0 c) p :=
-  (h.1.consume c true (by simp [Req.remaining, h.2, h.1.size]; exact hc) hs).2
+theorem Fresh.feeds_adv {r0 : Req} {p : Bytes} (h : Fresh r0 p) (c : Nat) (hc : c ≤ p.length) :
+    Feeds (Req.adv r0 c) p := by
+  by_cases hs : c ≤ r0.src.length
+  · exact (h.1.consume c true (by simp [Req.remaining, h.2, h.1.size]; exact hc) hs).2
+  · refine ⟨h.1.size, by simp [Req.adv, h.2, h.1.size]; exact hc, ?_, h.1.flag⟩
+    have : r0.src.drop c = [] := List.drop_eq_nil_of_le (by omega)
+    simp [Req.adv, this]
 
 theorem Fresh.adv_consumed {r0 : Req} {p : Bytes} (h : Fresh r0 p) (c : Nat) : (Req.adv r0 c).consumed = c := by
   simp [Req.adv, h.2]
@@ -657,7 +838,22 @@ structure Finished (s s' : State) (r0 : Req) : Prop where
 def Advance (s s' : State) (out : Option CanMsg) (r0 : Req) (p : Bytes) (k : Nat) : Prop :=
   (out = none ∧ TxInv s' r0 p k ∧ Quiet s s') ∨
   (∃ d, (segOf s p)[k]? = some d ∧ out = some (msgFor s r0 p d) ∧ TxInv s' r0 p (k + 1) ∧ Quiet s s') ∨
-  (∃ d, (segOf s p)[k]? = some d ∧ (segOf s p).length = k + 1 ∧ out = some (msgFor s r0 p d) ∧ Finished s s' r0)
+  (∃ d, (segOf s p)[k]? = some d ∧ (segOf s p).length = k + 1 ∧ out = some (msgFor s r0 p d) ∧ Finished s s' r0 ∧
+      p.length ≤ r0.src.length)
+
+/-- the transfer of `r0` failed: `complete(False)` newly logged -/
+structure Failed (s s' : State) (r0 : Req) : Prop where
+  cfg : s'.cfg = s.cfg
+  addr : s'.addr = s.addr
+  log : ∃ evs, s'.log = evs ++ s.log ∧ Ev.done r0.id false ∈ evs
+
+/-- outcome of one transmit pass for the request in flight: it advances, or the transfer has failed -/
+def Outcome (s s' : State) (out : Option CanMsg) (r0 : Req) (p : Bytes) (k : Nat) : Prop :=
+  Advance s s' out r0 p k ∨ Failed s s' r0
+
+theorem BadGen.failed {s s' : State} {r r0 : Req} (h : BadGen s s' r) (hid : r.id = r0.id) : Failed s s' r0 :=
+  ⟨h.cfg, h.addr, [Ev.done r.id false, Ev.err s.now .BadGenerator] ++ pullLog r r.src.length,
+    by rw [h.log]; simp, by simp [hid]⟩
 
 theorem NoDone_pullLog (r : Req) (n : Nat) : NoDone (pullLog r n) := by
   unfold pullLog; split
@@ -673,7 +869,7 @@ theorem length_of_getElem? {α : Type} (l : List α) (k : Nat) (d : α) (h1 : l[
     · rw [List.getElem?_eq_none_iff.mpr h] at h1; cases h1
   omega
 
-theorem txFsm_prog_cf (s : State) (allowed : Nat) (r0 : Req) (p : Bytes) (k : Nat)
+theorem txFsm_prog_cf_enough (s : State) (allowed : Nat) (r0 : Req) (p : Bytes) (k : Nat)
     (hv : s.cfg.valid = true) (hfr : Fresh r0 p) (hi : TxProg s r0 p k) (hst : s.txState = .transmitCf)
     (hen : carried (TxCfg.of s.cfg s.addr) p.length (k + 1) ≤ r0.src.length) :
     Advance s (s.transmitCf allowed).1 (s.transmitCf allowed).2.1 r0 p k := by
@@ -689,7 +885,7 @@ theorem txFsm_prog_cf (s : State) (allowed : Nat) (r0 : Req) (p : Bytes) (k : Na
   have hstep := carried_step (TxCfg.of s.cfg s.addr) p.length k hk (by omega)
   have hsrc : (Req.adv r0 c).src.length = r0.src.length - c := by simp [Req.adv]
   obtain ⟨d, hd, hcases⟩ := transmitCf_eq s allowed p k (Req.adv r0 c) rbs hv hact hbs
-    (hfr.feeds_adv c (by omega) (by omega)) hk hff (by rw [hcons, hc]) (by rw [hcons]; exact hlt) hseq
+    (hfr.feeds_adv c (by omega)) hk hff (by rw [hcons, hc]) (by rw [hcons]; exact hlt) hseq
     (by rw [hcons, hsrc]; omega)
   have hmsg : frameMsg s.cfg s.addr (s.addr.tx.txId .physical) d = msgFor s r0 p d := by
     simp [msgFor, arbId, hff]
@@ -699,7 +895,7 @@ theorem txFsm_prog_cf (s : State) (allowed : Nat) (r0 : Req) (p : Bytes) (k : Na
   · rw [h]; dsimp only
     exact Or.inl ⟨rfl, Or.inr ⟨hk, hff, by omega, by rw [hc]; exact hact, hlen, hseq, hstate⟩, Quiet.refl s⟩
   · rw [h]; dsimp only
-    refine Or.inr (Or.inr ⟨d, hd, ?_, rfl, ?_⟩)
+    refine Or.inr (Or.inr ⟨d, hd, ?_, rfl, ?_, h1 ▸ hen⟩)
     · apply length_of_getElem? _ _ _ hd
       show (segment (TxCfg.of s.cfg s.addr) p)[k+1]? = none
       rw [segment_ff_succ _ hvt p hff (k+1) (by omega), if_neg (by omega)]
@@ -718,47 +914,57 @@ theorem txFsm_prog_cf (s : State) (allowed : Nat) (r0 : Req) (p : Bytes) (k : Na
     · exact ⟨rfl, rfl, rfl, pullLog (Req.adv r0 c) m, rfl, NoDone_pullLog _ _⟩
 
 
-@[simp] theorem stopSending_cfg (s : State) (b : Bool) : (s.stopSending b).cfg = s.cfg := by
-  unfold stopSending; cases s.active <;> rfl
-@[simp] theorem stopSending_addr (s : State) (b : Bool) : (s.stopSending b).addr = s.addr := by
-  unfold stopSending; cases s.active <;> rfl
-@[simp] theorem stopSending_exc (s : State) (b : Bool) : (s.stopSending b).exc = s.exc := by
-  unfold stopSending; cases s.active <;> rfl
-@[simp] theorem stopSending_txState (s : State) (b : Bool) : (s.stopSending b).txState = .idle := by
-  unfold stopSending; cases s.active <;> rfl
-@[simp] theorem stopSending_active (s : State) (b : Bool) : (s.stopSending b).active = none := by
-  unfold stopSending; cases h : s.active <;> simp [h]
-@[simp] theorem stopSending_standby (s : State) (b : Bool) : (s.stopSending b).standby = none := by
-  unfold stopSending; cases s.active <;> rfl
-@[simp] theorem stopSending_txQueue (s : State) (b : Bool) : (s.stopSending b).txQueue = s.txQueue := by
-  unfold stopSending; cases s.active <;> rfl
-theorem stopSending_log (s : State) (b : Bool) (r : Req) (h : s.active = some r) :
-    (s.stopSending b).log = Ev.done r.id b :: s.log := by
-  unfold stopSending; rw [h]; rfl
+/-- `transmitCf` with `k ≥ 1` frames out, any generator: it advances (frame `k` of the reference segmentation), or the
+    generator ended early and the transfer failed -/
+theorem txFsm_prog_cf (s : State) (allowed : Nat) (r0 : Req) (p : Bytes) (k : Nat)
+    (hv : s.cfg.valid = true) (hfr : Fresh r0 p) (hi : TxProg s r0 p k) (hst : s.txState = .transmitCf) :
+    Outcome s (s.transmitCf allowed).1 (s.transmitCf allowed).2.1 r0 p k := by
+  by_cases hen : carried (TxCfg.of s.cfg s.addr) p.length (k + 1) ≤ r0.src.length
+  · exact Or.inl (txFsm_prog_cf_enough s allowed r0 p k hv hfr hi hst hen)
+  · have hi' := hi
+    obtain ⟨hk, hff, hlt, hact, hlen, hseq, hstate⟩ := hi
+    have hrb : s.remoteBs.isSome = true := by
+      rcases hstate with h | h
+      · rw [hst] at h; cases h
+      · exact h.2
+    obtain ⟨rbs, hbs⟩ := Option.isSome_iff_exists.mp hrb
+    have hvt := valid_of s.cfg s.addr hv
+    have hroom := cfRoom_pos _ hvt
+    have hstep := carried_step (TxCfg.of s.cfg s.addr) p.length k hk hlt
+    generalize hc : carried (TxCfg.of s.cfg s.addr) p.length k = c at *
+    have hcons := hfr.adv_consumed c
+    have hsrc : (Req.adv r0 c).src.length = r0.src.length - c := by simp [Req.adv]
+    rcases transmitCf_short s allowed p (Req.adv r0 c) rbs hv hact hbs (hfr.feeds_adv c (by omega))
+      (by rw [hcons]; exact hlt) (by rw [hcons, hsrc]; omega) with h | ⟨-, h⟩
+    · rw [h]
+      exact Or.inl (Or.inl ⟨rfl, Or.inr (by rw [← hc] at hact hlt; exact ⟨hk, hff, hlt, hact, hlen, hseq, hstate⟩),
+        Quiet.refl s⟩)
+    · exact Or.inr (h.failed rfl)
 
 theorem carried_one_lt (tc : TxCfg) (n : Nat) (hv : ValidTx tc) (hff : NeedsFF tc n) : carried tc n 1 < n := by
   have := ffRoom_lt tc n hff hv
   simp [carried]; omega
 
 theorem txFsm_inv (s : State) (allowed : Nat) (r0 : Req) (p : Bytes) (k : Nat)
-    (hv : s.cfg.valid = true) (hfr : Fresh r0 p) (hi : TxInv s r0 p k)
-    (hen : 1 ≤ k → carried (TxCfg.of s.cfg s.addr) p.length (k + 1) ≤ r0.src.length) :
-    Advance s (txFsm s allowed).1 (txFsm s allowed).2.1 r0 p k := by
+    (hv : s.cfg.valid = true) (hfr : Fresh r0 p) (hi : TxInv s r0 p k) :
+    Outcome s (txFsm s allowed).1 (txFsm s allowed).2.1 r0 p k := by
   have hvt := valid_of s.cfg s.addr hv
-  rcases hi with ⟨hk, d0, hd0, hsb, ⟨hst, hseg, hnff, hact⟩ | ⟨hst, hff, hact, hlen, hseq⟩⟩ | hprog
+  rcases hi with ⟨hk, d0, hd0, hsb, ⟨hst, hseg, hnff, hact, hfullp⟩ | ⟨hst, hff, hact, hlen, hseq⟩⟩ | hprog
   · -- Single Frame parked
+    refine Or.inl ?_
     subst hk
     unfold txFsm
     rw [hst]; dsimp only; rw [hsb]; dsimp only
     by_cases hal : (msgFor s r0 p d0).data.length ≤ allowed
     · rw [if_pos hal]
       simp only [reduceCtorEq, if_false]
-      refine Or.inr (Or.inr ⟨d0, hd0, by simp [segOf, hseg], rfl, ?_⟩)
+      refine Or.inr (Or.inr ⟨d0, hd0, by simp [segOf, hseg], rfl, ?_, hfullp⟩)
       refine ⟨by simp, by simp, by simp, by simp, by simp, by simp, ?_⟩
       exact ⟨[], stopSending_log _ _ (Req.adv r0 p.length) hact, NoDone_nil⟩
     · rw [if_neg hal]
-      exact Or.inl ⟨rfl, Or.inl ⟨rfl, d0, hd0, hsb, Or.inl ⟨hst, hseg, hnff, hact⟩⟩, Quiet.refl s⟩
+      exact Or.inl ⟨rfl, Or.inl ⟨rfl, d0, hd0, hsb, Or.inl ⟨hst, hseg, hnff, hact, hfullp⟩⟩, Quiet.refl s⟩
   · -- First Frame parked
+    refine Or.inl ?_
     subst hk
     unfold txFsm
     rw [hst]; dsimp only; rw [hsb]; dsimp only
@@ -772,10 +978,10 @@ theorem txFsm_inv (s : State) (allowed : Nat) (r0 : Req) (p : Bytes) (k : Nat)
   · rcases hprog.2.2.2.2.2.2 with hst | ⟨hst, -⟩
     · unfold txFsm
       rw [hst]
-      exact Or.inl ⟨rfl, Or.inr hprog, Quiet.refl s⟩
+      exact Or.inl (Or.inl ⟨rfl, Or.inr hprog, Quiet.refl s⟩)
     · have : txFsm s allowed = s.transmitCf allowed := by unfold txFsm; rw [hst]
       rw [this]
-      exact txFsm_prog_cf s allowed r0 p k hv hfr hprog hst (hen hprog.1)
+      exact txFsm_prog_cf s allowed r0 p k hv hfr hprog hst
 
 /-- configuration and address unchanged, log only extended -/
 structure Ext (s s' : State) : Prop where
@@ -843,12 +1049,6 @@ theorem txTail_idle_ext (s : State) (a : Nat) (hst : s.txState = .idle) : Ext s 
     split <;> log_ext
   · exact txRest_idle_ext s a hst
 
-/-- the transfer of `r0` failed: `complete(False)` newly logged -/
-structure Failed (s s' : State) (r0 : Req) : Prop where
-  cfg : s'.cfg = s.cfg
-  addr : s'.addr = s.addr
-  log : ∃ evs, s'.log = evs ++ s.log ∧ Ev.done r0.id false ∈ evs
-
 theorem Aborted.failed_of_ext {s s1 s' : State} {r0 : Req} (h : Aborted s s1 r0) (he : Ext s1 s') :
     Failed s s' r0 := by
   obtain ⟨evs, hl, hm⟩ := h.log
@@ -883,7 +1083,7 @@ theorem Advance.wrap {s s1 : State} {out : Option CanMsg} {r0 : Req} {p : Bytes}
     rcases h with ⟨-, -, hq⟩ | ⟨d, -, -, -, hq⟩ | ⟨d, -, -, -, hf⟩
     · rw [hq.exc, hexc]
     · rw [hq.exc, hexc]
-    · rw [hf.exc, hexc]
+    · rw [hf.1.exc, hexc]
   have hif : ¬ (s1.exc.isSome = true) := by rw [he]; simp
   rw [if_neg hif]
   rcases h with ⟨ho, hi, hq⟩ | ⟨d, hd, ho, hi, hq⟩ | ⟨d, hd, hl, ho, hf⟩
@@ -892,12 +1092,24 @@ theorem Advance.wrap {s s1 : State} {out : Option CanMsg} {r0 : Req} {p : Bytes}
     exact Or.inr (Or.inl ⟨d, hd, rfl, TxSame.inv ⟨rfl, rfl, rfl, rfl, rfl, rfl, rfl, rfl⟩ _ _ _ hi,
       ⟨hq.cfg, hq.addr, hq.exc, hq.log⟩⟩)
   · subst ho
-    exact Or.inr (Or.inr ⟨d, hd, hl, rfl, ⟨hf.cfg, hf.addr, hf.exc, hf.txState, hf.active, hf.standby, hf.log⟩⟩)
+    exact Or.inr (Or.inr ⟨d, hd, hl, rfl, ⟨hf.1.cfg, hf.1.addr, hf.1.exc, hf.1.txState, hf.1.active, hf.1.standby, hf.1.log⟩,
+      hf.2⟩)
+
+theorem Failed.wrap {s s1 : State} {r0 : Req} (out : Option CanMsg) (imm : Bool) (h : Failed s s1 r0) :
+    Failed s
+      (if s1.exc.isSome then (s1, none, false) else
+        match out with
+        | some msg => ({ s1 with rl := s1.rl.inform s1.now msg.data.length }, some msg, imm)
+        | none => (s1, none, imm)).1 r0 := by
+  split
+  · exact h
+  · split
+    · exact ⟨h.cfg, h.addr, h.log⟩
+    · exact h
 
 theorem txRest_inv (s : State) (a : Nat) (r0 : Req) (p : Bytes) (k : Nat)
-    (hv : s.cfg.valid = true) (hfr : Fresh r0 p) (hexc : s.exc = none) (hi : TxInv s r0 p k)
-    (hen : 1 ≤ k → carried (TxCfg.of s.cfg s.addr) p.length (k + 1) ≤ r0.src.length) :
-    Advance s (txRest s a).1 (txRest s a).2.1 r0 p k := by
+    (hv : s.cfg.valid = true) (hfr : Fresh r0 p) (hexc : s.exc = none) (hi : TxInv s r0 p k) :
+    Outcome s (txRest s a).1 (txRest s a).2.1 r0 p k := by
   obtain ⟨c, hact⟩ := hi.active
   unfold txRest
   rw [hact]
@@ -906,14 +1118,13 @@ theorem txRest_inv (s : State) (a : Nat) (r0 : Req) (p : Bytes) (k : Nat)
   rw [hact] at hnd
   simp only [] at hnd
   simp only [Bool.and_assoc, hnd, Bool.and_false, Bool.false_eq_true, if_false]
-  have h := txFsm_inv s a r0 p k hv hfr hi hen
+  have h := txFsm_inv s a r0 p k hv hfr hi
   generalize txFsm s a = X at h ⊢
   obtain ⟨s1, out, imm⟩ := X
-  exact Advance.wrap imm hexc h
+  rcases h with h | h
+  · exact Or.inl (Advance.wrap imm hexc h)
+  · exact Or.inr (Failed.wrap out imm h)
 
-
-@[simp] theorem stopSending_now (s : State) (b : Bool) : (s.stopSending b).now = s.now := by
-  unfold stopSending; cases s.active <;> rfl
 
 theorem NoDone_append {a b : List Ev} (ha : NoDone a) (hb : NoDone b) : NoDone (a ++ b) := by
   intro e he
@@ -928,7 +1139,8 @@ theorem Advance.of_quiet {s s1 s' : State} {out : Option CanMsg} {r0 : Req} {p :
   rcases h with ⟨ho, hi, hq2⟩ | ⟨d, hd, ho, hi, hq2⟩ | ⟨d, hd, hl, ho, hf⟩
   · exact Or.inl ⟨ho, hi, hq.trans hq2⟩
   · exact Or.inr (Or.inl ⟨d, by rw [← hseg]; exact hd, by rw [← hmsg]; exact ho, hi, hq.trans hq2⟩)
-  · refine Or.inr (Or.inr ⟨d, by rw [← hseg]; exact hd, by rw [← hseg]; exact hl, by rw [← hmsg]; exact ho, ?_⟩)
+  · obtain ⟨hf, hfu⟩ := hf
+    refine Or.inr (Or.inr ⟨d, by rw [← hseg]; exact hd, by rw [← hseg]; exact hl, by rw [← hmsg]; exact ho, ?_, hfu⟩)
     obtain ⟨evs1, hl1, hn1⟩ := hq.log
     obtain ⟨evs2, hl2, hn2⟩ := hf.log
     exact ⟨hf.cfg.trans hq.cfg, hf.addr.trans hq.addr, hf.exc.trans hq.exc, hf.txState, hf.active, hf.standby,
@@ -939,24 +1151,24 @@ theorem Failed.of_quiet {s s1 s' : State} {r0 : Req} (hq : Quiet s s1) (h : Fail
   obtain ⟨evs2, hl2, hm⟩ := h.log
   exact ⟨h.cfg.trans hq.cfg, h.addr.trans hq.addr, evs2 ++ evs1, by rw [hl2, hl1]; simp, List.mem_append_left _ hm⟩
 
-/-- outcome of one transmit pass for the request in flight: it advances, or the transfer has failed -/
-def Outcome (s s' : State) (out : Option CanMsg) (r0 : Req) (p : Bytes) (k : Nat) : Prop :=
-  Advance s s' out r0 p k ∨ Failed s s' r0
+theorem Outcome.of_quiet {s s1 s' : State} {out : Option CanMsg} {r0 : Req} {p : Bytes} {k : Nat}
+    (hq : Quiet s s1) (h : Outcome s1 s' out r0 p k) : Outcome s s' out r0 p k := by
+  rcases h with h | h
+  · exact Or.inl (Advance.of_quiet hq h)
+  · exact Or.inr (Failed.of_quiet hq h)
 
 theorem txTail_inv (s : State) (a : Nat) (r0 : Req) (p : Bytes) (k : Nat)
-    (hv : s.cfg.valid = true) (hfr : Fresh r0 p) (hexc : s.exc = none) (hi : TxInv s r0 p k)
-    (hen : 1 ≤ k → carried (TxCfg.of s.cfg s.addr) p.length (k + 1) ≤ r0.src.length) :
+    (hv : s.cfg.valid = true) (hfr : Fresh r0 p) (hexc : s.exc = none) (hi : TxInv s r0 p k) :
     Outcome s (txTail s a).1 (txTail s a).2.1 r0 p k := by
   obtain ⟨c, hact⟩ := hi.active
   unfold txTail
   split
   · exact Or.inr ((Aborted.stop s _ r0 c hact).failed_of_ext (txRest_idle_ext _ a (by simp)))
-  · exact Or.inl (txRest_inv s a r0 p k hv hfr hexc hi hen)
+  · exact txRest_inv s a r0 p k hv hfr hexc hi
 
 theorem txMain_inv (s : State) (r0 : Req) (p : Bytes) (k : Nat)
     (hv : s.cfg.valid = true) (hfr : Fresh r0 p) (hexc : s.exc = none)
-    (hi : TxInv s r0 p k)
-    (hen : 1 ≤ k → carried (TxCfg.of s.cfg s.addr) p.length (k + 1) ≤ r0.src.length) :
+    (hi : TxInv s r0 p k) :
     Outcome s (txMain s).1 (txMain s).2.1 r0 p k := by
   obtain ⟨c, hact⟩ := hi.active
   unfold txMain
@@ -969,7 +1181,7 @@ theorem txMain_inv (s : State) (r0 : Req) (p : Bytes) (k : Nat)
     · exact Or.inr (Failed.of_quiet hq0 h)
   apply lift
   cases hfc : s.lastFc with
-  | none => dsimp only; exact txTail_inv { s with lastFc := none } _ r0 p k hv hfr hexc hi1 hen
+  | none => dsimp only; exact txTail_inv { s with lastFc := none } _ r0 p k hv hfr hexc hi1
   | some f =>
     dsimp only
     split
@@ -982,15 +1194,11 @@ theorem txMain_inv (s : State) (r0 : Req) (p : Bytes) (k : Nat)
     · rcases handleFc_inv { s with lastFc := none } f r0 p k hi1 with ⟨hi2, hq⟩ | hab
       · have hv2 : (({ s with lastFc := none } : State).handleFc f).cfg.valid = true := by rw [hq.cfg]; exact hv
         have hexc2 : (({ s with lastFc := none } : State).handleFc f).exc = none := by rw [hq.exc]; exact hexc
-        rcases txTail_inv _ (s.rl.allowedBytes s.cfg.rlBitMax) r0 p k hv2 hfr hexc2 hi2
-          (by rw [hq.cfg, hq.addr]; exact hen) with h | h
+        rcases txTail_inv _ (s.rl.allowedBytes s.cfg.rlBitMax) r0 p k hv2 hfr hexc2 hi2 with h | h
         · exact Or.inl (Advance.of_quiet hq h)
         · exact Or.inr (Failed.of_quiet hq h)
       · exact Or.inr (hab.failed_of_ext (txTail_idle_ext _ _ hab.txState))
 
-
-/-- number of values `startTx` pulls for frame 0: the whole payload for a Single Frame, else the First Frame part -/
-def firstPull (tc : TxCfg) (n : Nat) : Nat := if NeedsFF tc n then ffRoom tc n else n
 
 theorem carried_one (tc : TxCfg) (n : Nat) (hv : ValidTx tc) (hff : NeedsFF tc n) : carried tc n 1 = ffRoom tc n := by
   have := ffRoom_lt tc n hff hv
@@ -1024,12 +1232,13 @@ theorem startTx_adv (s : State) (r0 : Req) (a : Nat) (p : Bytes) (hv : s.cfg.val
     · rw [h]; dsimp only
       have hmsg : frameMsg s.cfg s.addr (s.addr.tx.txId r0.tat) d0 = msgFor s r0 p d0 := by simp [msgFor, arbId, hff]
       refine Or.inr (Or.inr ⟨d0, by simp [segOf, hseg], by simp [segOf, hseg], by rw [hmsg],
-        ⟨by simp, by simp, by simp, by simp, by simp, by simp, pullLog r0 p.length, ?_, NoDone_pullLog _ _⟩⟩)
+        ⟨by simp, by simp, by simp, by simp, by simp, by simp, pullLog r0 p.length, ?_, NoDone_pullLog _ _⟩,
+        by simpa [firstPull, hff] using hen⟩)
       rw [stopSending_log _ _ (Req.adv r0 p.length) rfl]; rfl
     · rw [h]; dsimp only
       have hmsg : frameMsg s.cfg s.addr (s.addr.tx.txId r0.tat) d0 = msgFor s r0 p d0 := by simp [msgFor, arbId, hff]
       exact Or.inl ⟨rfl, Or.inl ⟨rfl, d0, by dsimp only; simp [hseg], by dsimp only; rw [hmsg]; rfl,
-        Or.inl ⟨rfl, hseg, hff, rfl⟩⟩, ⟨rfl, rfl, rfl, _, rfl, NoDone_pullLog _ _⟩⟩
+        Or.inl ⟨rfl, hseg, hff, rfl, by simpa [firstPull, hff] using hen⟩⟩, ⟨rfl, rfl, rfl, _, rfl, NoDone_pullLog _ _⟩⟩
 
 
 theorem Fresh.not_depleted {r0 : Req} {p : Bytes} (hfr : Fresh r0 p) (h1 : 1 ≤ p.length) : r0.depleted = false := by
@@ -1041,11 +1250,19 @@ theorem Fresh.not_depleted {r0 : Req} {p : Bytes} (hfr : Fresh r0 p) (h1 : 1 ≤
   simp
   intro h; rw [h] at h1; simp at h1
 
+/-- (C1, any generator) `startTx` on a fresh request builds frame 0 of the reference segmentation, or the generator
+    ended before frame 0 could be filled and the transfer failed (no frame) -/
+theorem startTx_out (s : State) (r0 : Req) (a : Nat) (p : Bytes) (hv : s.cfg.valid = true) (hfr : Fresh r0 p)
+    (h1 : 1 ≤ p.length) (hn : p.length < 4294967296) :
+    Outcome s (s.startTx r0 a).1 (s.startTx r0 a).2 r0 p 0 := by
+  by_cases hen : firstPull (TxCfg.of s.cfg s.addr) p.length ≤ r0.src.length
+  · exact Or.inl (startTx_adv s r0 a p hv hfr h1 hn hen)
+  · exact Or.inr ((startTx_short s r0 a p hv hfr.1 hfr.2 (by omega)).2.failed rfl)
+
 theorem txRest_start (s : State) (a : Nat) (r0 : Req) (rest : List Req) (p : Bytes)
     (hv : s.cfg.valid = true) (hfr : Fresh r0 p) (h1 : 1 ≤ p.length) (hn : p.length < 4294967296)
-    (hexc : s.exc = none) (hst : s.txState = .idle) (hq : s.txQueue = r0 :: rest)
-    (hen : firstPull (TxCfg.of s.cfg s.addr) p.length ≤ r0.src.length) :
-    Advance s (txRest s a).1 (txRest s a).2.1 r0 p 0 := by
+    (hexc : s.exc = none) (hst : s.txState = .idle) (hq : s.txQueue = r0 :: rest) :
+    Outcome s (txRest s a).1 (txRest s a).2.1 r0 p 0 := by
   unfold txRest
   simp only [hst, ne_eq, not_true_eq_false, decide_false, Bool.false_and, Bool.false_eq_true, if_false]
   unfold txFsm
@@ -1053,11 +1270,13 @@ theorem txRest_start (s : State) (a : Nat) (r0 : Req) (rest : List Req) (p : Byt
   rw [hq]
   unfold readTxQueue
   simp only [hfr.not_depleted h1, Bool.false_eq_true, if_false]
-  have h := startTx_adv { s with txQueue := rest, active := some r0 } r0 a p hv hfr h1 hn hen
+  have h := startTx_out { s with txQueue := rest, active := some r0 } r0 a p hv hfr h1 hn
   generalize State.startTx { s with txQueue := rest, active := some r0 } r0 a = X at h ⊢
   obtain ⟨s1, out⟩ := X
   have hq0 : Quiet s { s with txQueue := rest, active := some r0 } := ⟨rfl, rfl, rfl, [], rfl, NoDone_nil⟩
-  exact Advance.wrap false hexc (Advance.of_quiet hq0 h)
+  rcases h with h | h
+  · exact Or.inl (Advance.wrap false hexc (Advance.of_quiet hq0 h))
+  · exact Or.inr (Failed.wrap out false (Failed.of_quiet hq0 h))
 
 /-- nothing happened to the (idle) transmit side except error reports -/
 structure StillIdle (s s' : State) : Prop where
@@ -1074,16 +1293,14 @@ theorem StillIdle.stop_error (s : State) (e : Err) (_hst : s.txState = .idle) (h
 
 theorem txTail_start (s : State) (a : Nat) (r0 : Req) (rest : List Req) (p : Bytes)
     (hv : s.cfg.valid = true) (hfr : Fresh r0 p) (h1 : 1 ≤ p.length) (hn : p.length < 4294967296)
-    (hexc : s.exc = none) (hst : s.txState = .idle) (hact : s.active = none) (hq : s.txQueue = r0 :: rest)
-    (hen : firstPull (TxCfg.of s.cfg s.addr) p.length ≤ r0.src.length) :
-    Advance s (txTail s a).1 (txTail s a).2.1 r0 p 0 := by
+    (hexc : s.exc = none) (hst : s.txState = .idle) (hact : s.active = none) (hq : s.txQueue = r0 :: rest) :
+    Outcome s (txTail s a).1 (txTail s a).2.1 r0 p 0 := by
   unfold txTail
   split
   · have hi := StillIdle.stop_error s .FlowControlTimeout hst hact
-    exact Advance.of_quiet hi.quiet (txRest_start _ a r0 rest p (by rw [hi.quiet.cfg]; exact hv) hfr h1 hn
-      (by rw [hi.quiet.exc]; exact hexc) hi.txState (by rw [hi.txQueue]; exact hq)
-      (by rw [hi.quiet.cfg, hi.quiet.addr]; exact hen))
-  · exact txRest_start s a r0 rest p hv hfr h1 hn hexc hst hq hen
+    exact Outcome.of_quiet hi.quiet (txRest_start _ a r0 rest p (by rw [hi.quiet.cfg]; exact hv) hfr h1 hn
+      (by rw [hi.quiet.exc]; exact hexc) hi.txState (by rw [hi.txQueue]; exact hq))
+  · exact txRest_start s a r0 rest p hv hfr h1 hn hexc hst hq
 
 /-- a transmit pass of an idle layer whose queue starts with the fresh request `r0` for payload `p`: it builds
     frame 0 of the reference segmentation (emitted, or parked by the rate limiter), unless an Overflow Flow
@@ -1091,15 +1308,14 @@ theorem txTail_start (s : State) (a : Nat) (r0 : Req) (rest : List Req) (p : Byt
 theorem txMain_start (s : State) (r0 : Req) (rest : List Req) (p : Bytes)
     (hv : s.cfg.valid = true) (hfr : Fresh r0 p) (h1 : 1 ≤ p.length) (hn : p.length < 4294967296)
     (hexc : s.exc = none)
-    (hst : s.txState = .idle) (hact : s.active = none) (hq : s.txQueue = r0 :: rest)
-    (hen : firstPull (TxCfg.of s.cfg s.addr) p.length ≤ r0.src.length) :
-    Advance s (txMain s).1 (txMain s).2.1 r0 p 0 ∨ ((txMain s).2.1 = none ∧ StillIdle s (txMain s).1) := by
+    (hst : s.txState = .idle) (hact : s.active = none) (hq : s.txQueue = r0 :: rest) :
+    Outcome s (txMain s).1 (txMain s).2.1 r0 p 0 ∨ ((txMain s).2.1 = none ∧ StillIdle s (txMain s).1) := by
   unfold txMain
   have hq0 : Quiet s { s with lastFc := none } := ⟨rfl, rfl, rfl, [], rfl, NoDone_nil⟩
   cases hfc : s.lastFc with
   | none =>
     dsimp only
-    exact Or.inl (Advance.of_quiet hq0 (txTail_start { s with lastFc := none } _ r0 rest p hv hfr h1 hn hexc hst hact hq hen))
+    exact Or.inl (Outcome.of_quiet hq0 (txTail_start { s with lastFc := none } _ r0 rest p hv hfr h1 hn hexc hst hact hq))
   | some f =>
     dsimp only
     split
@@ -1114,7 +1330,7 @@ theorem txMain_start (s : State) (r0 : Req) (rest : List Req) (p : Bytes)
       rw [hh]
       have hq1 : Quiet s (({ s with lastFc := none } : State).error .UnexpectedFlowControl) :=
         ⟨rfl, rfl, rfl, [Ev.err s.now .UnexpectedFlowControl], rfl, NoDone_err _ _⟩
-      exact Advance.of_quiet hq1 (txTail_start _ _ r0 rest p hv hfr h1 hn hexc hst hact hq hen)
+      exact Outcome.of_quiet hq1 (txTail_start _ _ r0 rest p hv hfr h1 hn hexc hst hact hq)
 
 /-! ### frame conditions (C4): the other operations leave the transmit progress alone -/
 
@@ -1456,22 +1672,15 @@ theorem processTx_data (s : State) (hfc : FcOk s) (hd : fcPass s = false) :
   · have hp' : s.pendingFc = false := by simpa using hp
     exact ⟨s, processTx_eq_main s hp', ⟨rfl, rfl, rfl, rfl, rfl, rfl, rfl, rfl⟩, Quiet.refl s, rfl, hp'⟩
 
-theorem Outcome.of_quiet {s s1 s' : State} {out : Option CanMsg} {r0 : Req} {p : Bytes} {k : Nat}
-    (hq : Quiet s s1) (h : Outcome s1 s' out r0 p k) : Outcome s s' out r0 p k := by
-  rcases h with h | h
-  · exact Or.inl (Advance.of_quiet hq h)
-  · exact Or.inr (Failed.of_quiet hq h)
-
 /-- (C3) a data pass of `_process_tx` while `k` frames of `p` are out -/
 theorem processTx_inv (s : State) (r0 : Req) (p : Bytes) (k : Nat)
     (hv : s.cfg.valid = true) (hfr : Fresh r0 p) (hexc : s.exc = none) (hfc : FcOk s) (hd : fcPass s = false)
-    (hi : TxInv s r0 p k)
-    (hen : 1 ≤ k → carried (TxCfg.of s.cfg s.addr) p.length (k + 1) ≤ r0.src.length) :
+    (hi : TxInv s r0 p k) :
     Outcome s s.processTx.1 s.processTx.2.1 r0 p k := by
   obtain ⟨s1, he, hsame, hq, -, -⟩ := processTx_data s hfc hd
   rw [he]
   exact Outcome.of_quiet hq (txMain_inv s1 r0 p k (by rw [hq.cfg]; exact hv) hfr (by rw [hq.exc]; exact hexc)
-    (hsame.inv _ _ _ hi) (by rw [hq.cfg, hq.addr]; exact hen))
+    (hsame.inv _ _ _ hi))
 
 theorem StillIdle.of_quiet {s s1 s' : State} (hq : Quiet s s1) (hqq : s1.txQueue = s.txQueue) (h : StillIdle s1 s') :
     StillIdle s s' :=
@@ -1481,15 +1690,13 @@ theorem StillIdle.of_quiet {s s1 s' : State} (hq : Quiet s s1) (hqq : s1.txQueue
 theorem processTx_start (s : State) (r0 : Req) (rest : List Req) (p : Bytes)
     (hv : s.cfg.valid = true) (hfr : Fresh r0 p) (h1 : 1 ≤ p.length) (hn : p.length < 4294967296)
     (hexc : s.exc = none) (hfc : FcOk s) (hd : fcPass s = false)
-    (hst : s.txState = .idle) (hact : s.active = none) (hq : s.txQueue = r0 :: rest)
-    (hen : firstPull (TxCfg.of s.cfg s.addr) p.length ≤ r0.src.length) :
-    Advance s s.processTx.1 s.processTx.2.1 r0 p 0 ∨ (s.processTx.2.1 = none ∧ StillIdle s s.processTx.1) := by
+    (hst : s.txState = .idle) (hact : s.active = none) (hq : s.txQueue = r0 :: rest) :
+    Outcome s s.processTx.1 s.processTx.2.1 r0 p 0 ∨ (s.processTx.2.1 = none ∧ StillIdle s s.processTx.1) := by
   obtain ⟨s1, he, hsame, hqu, hqq, -⟩ := processTx_data s hfc hd
   rw [he]
   rcases txMain_start s1 r0 rest p (by rw [hqu.cfg]; exact hv) hfr h1 hn (by rw [hqu.exc]; exact hexc)
-    (by rw [hsame.txState]; exact hst) (by rw [hsame.active]; exact hact) (by rw [hqq]; exact hq)
-    (by rw [hqu.cfg, hqu.addr]; exact hen) with h | ⟨h, h'⟩
-  · exact Or.inl (Advance.of_quiet hqu h)
+    (by rw [hsame.txState]; exact hst) (by rw [hsame.active]; exact hact) (by rw [hqq]; exact hq) with h | ⟨h, h'⟩
+  · exact Or.inl (Outcome.of_quiet hqu h)
   · exact Or.inr ⟨h, StillIdle.of_quiet hqu hqq h'⟩
 
 /-- (C3, FC pass) a pass that sends the requested Flow Control leaves the transfer where it was -/
@@ -1601,7 +1808,8 @@ def TxInv0 (s : State) (r0 : Req) (p : Bytes) (k : Nat) : Prop := (k = 0 ∧ TxQ
 def Pass (s s' : State) (out : Option CanMsg) (r0 : Req) (p : Bytes) (k : Nat) : Prop :=
   (out = none ∧ TxInv0 s' r0 p k ∧ Quiet s s') ∨
   (∃ d, (segOf s p)[k]? = some d ∧ out = some (msgFor s r0 p d) ∧ TxInv0 s' r0 p (k + 1) ∧ Quiet s s') ∨
-  (∃ d, (segOf s p)[k]? = some d ∧ (segOf s p).length = k + 1 ∧ out = some (msgFor s r0 p d) ∧ Finished s s' r0) ∨
+  (∃ d, (segOf s p)[k]? = some d ∧ (segOf s p).length = k + 1 ∧ out = some (msgFor s r0 p d) ∧ Finished s s' r0 ∧
+      p.length ≤ r0.src.length) ∨
   Failed s s' r0
 
 theorem Advance.pass {s s' : State} {out : Option CanMsg} {r0 : Req} {p : Bytes} {k : Nat}
@@ -1623,23 +1831,23 @@ theorem carried_le (tc : TxCfg) (n k : Nat) : carried tc n k ≤ n := by
 /-- the generator yields at least the declared number of values (always the case for a bytes payload) -/
 def Full (r0 : Req) (p : Bytes) : Prop := p.length ≤ r0.src.length
 
-/-- (C3) every data pass of `_process_tx`, from the moment the request is at the head of the queue -/
+theorem Outcome.pass {s s' : State} {out : Option CanMsg} {r0 : Req} {p : Bytes} {k : Nat}
+    (h : Outcome s s' out r0 p k) : Pass s s' out r0 p k := by
+  rcases h with h | h
+  · exact h.pass
+  · exact Or.inr (Or.inr (Or.inr h))
+
+/-- (C3) every data pass of `_process_tx`, from the moment the request is at the head of the queue, for any generator -/
 theorem processTx_pass (s : State) (r0 : Req) (p : Bytes) (k : Nat)
-    (hv : s.cfg.valid = true) (hfr : Fresh r0 p) (hfull : Full r0 p) (h1 : 1 ≤ p.length) (hn : p.length < 4294967296)
+    (hv : s.cfg.valid = true) (hfr : Fresh r0 p) (h1 : 1 ≤ p.length) (hn : p.length < 4294967296)
     (hexc : s.exc = none) (hfc : FcOk s) (hd : fcPass s = false) (hi : TxInv0 s r0 p k) :
     Pass s s.processTx.1 s.processTx.2.1 r0 p k := by
-  have hen0 : firstPull (TxCfg.of s.cfg s.addr) p.length ≤ r0.src.length :=
-    Nat.le_trans (firstPull_le _ (valid_of s.cfg s.addr hv) _) hfull
-  have hen : 1 ≤ k → carried (TxCfg.of s.cfg s.addr) p.length (k + 1) ≤ r0.src.length :=
-    fun _ => Nat.le_trans (carried_le _ _ _) hfull
   rcases hi with ⟨hk, hst, hact, rest, hq⟩ | hi
   · subst hk
-    rcases processTx_start s r0 rest p hv hfr h1 hn hexc hfc hd hst hact hq hen0 with h | ⟨h, h'⟩
+    rcases processTx_start s r0 rest p hv hfr h1 hn hexc hfc hd hst hact hq with h | ⟨h, h'⟩
     · exact h.pass
     · exact Or.inl ⟨h, Or.inl ⟨rfl, h'.txState, h'.active, rest, by rw [h'.txQueue]; exact hq⟩, h'.quiet⟩
-  · rcases processTx_inv s r0 p k hv hfr hexc hfc hd hi hen with h | h
-    · exact h.pass
-    · exact Or.inr (Or.inr (Or.inr h))
+  · exact (processTx_inv s r0 p k hv hfr hexc hfc hd hi).pass
 
 theorem Op.queue (s : State) (o : Op) : ∃ more, (o.apply s).txQueue = s.txQueue ++ more := by
   cases o
@@ -1689,12 +1897,51 @@ def run : List Step → State → State × List CanMsg
     (r.1, o.toList ++ r.2)
   | .op o :: rest, s => run rest (o.apply s)
 
-/-- the layer still has the configuration of `s0`, has not raised, and its FC request flag is consistent -/
+/-- log extended by non-completion events only (no `SendRequest.complete` call) -/
+def QLog (s s' : State) : Prop := ∃ evs, s'.log = evs ++ s.log ∧ NoDone evs
+
+theorem QLog.refl (s : State) : QLog s s := ⟨[], rfl, NoDone_nil⟩
+
+theorem QLog.trans {a b c : State} (h1 : QLog a b) (h2 : QLog b c) : QLog a c := by
+  obtain ⟨e1, l1, n1⟩ := h1
+  obtain ⟨e2, l2, n2⟩ := h2
+  exact ⟨e2 ++ e1, by rw [l2, l1, List.append_assoc], NoDone_append n2 n1⟩
+
+macro "qlog" : tactic => `(tactic|
+  (first | exact ⟨[], rfl, by simp [NoDone]⟩ | exact ⟨[_], rfl, by simp [NoDone]⟩ | exact ⟨[_, _], rfl, by simp [NoDone]⟩
+         | exact ⟨[_, _, _], rfl, by simp [NoDone]⟩))
+
+theorem processRx_qlog (s : State) (m : CanMsg) : QLog s (s.processRx m).1 := by
+  unfold QLog processRx startReception
+  dsimp only
+  repeat' split
+  all_goals (simp only [deliver, stopReceiving, State.error, emit, requestFc, startRxCfTimer])
+  all_goals qlog
+
+theorem Op.qlog (s : State) (o : Op) : QLog s (o.apply s) := by
+  cases o
+  · exact processRx_qlog s _
+  · show QLog s s.checkTimeoutsRx
+    unfold QLog checkTimeoutsRx
+    split
+    · simp only [stopReceiving, State.error, emit]; qlog
+    · qlog
+  · show QLog s (s.send _).1
+    unfold State.send; dsimp only; repeat' split
+    all_goals exact QLog.refl s
+  · show QLog s s.recv.1
+    unfold State.recv; split <;> exact QLog.refl s
+  · exact QLog.refl s
+  · exact QLog.refl s
+
+/-- the layer still has the configuration of `s0`, has not raised, its FC request flag is consistent, and no request
+    completion has been logged since `s0` -/
 structure Live (s0 s : State) : Prop where
   cfg : s.cfg = s0.cfg
   addr : s.addr = s0.addr
   exc : s.exc = none
   fcOk : FcOk s
+  log : QLog s0 s
 
 /-- `outs` are exactly the frames number `k, k+1, …` of the reference segmentation of `p`, as CAN messages -/
 def Sent (s0 : State) (r0 : Req) (p : Bytes) (k : Nat) (outs : List CanMsg) : Prop :=
@@ -1711,7 +1958,7 @@ def RunRes (s0 : State) (r0 : Req) (p : Bytes) (k : Nat) (steps : List Step) (s 
      fcPass (run pre s).1 = false ∧
      ((∃ d, (run pre s).1.processTx.2.1 = some (msgFor s0 r0 p d) ∧
           (run pre s).2 ++ [msgFor s0 r0 p d] = ((segOf s0 p).drop k).map (msgFor s0 r0 p) ∧
-          Finished (run pre s).1 (run pre s).1.processTx.1 r0)
+          Finished (run pre s).1 (run pre s).1.processTx.1 r0 ∧ p.length ≤ r0.src.length)
       ∨ Failed (run pre s).1 (run pre s).1.processTx.1 r0))
 
 theorem drop_of_getElem? {α : Type} (l : List α) (k : Nat) (d : α) (h : l[k]? = some d) :
@@ -1763,13 +2010,13 @@ theorem Live.msgFor {s0 s : State} (h : Live s0 s) (r0 : Req) (p d : Bytes) : ms
   simp only [Proofs.msgFor, arbId, h.cfg, h.addr]
 
 theorem Live.of_quiet {s0 s s' : State} (h : Live s0 s) (hq : Quiet s s') (hf : FcOk s') : Live s0 s' :=
-  ⟨hq.cfg.trans h.cfg, hq.addr.trans h.addr, hq.exc.trans h.exc, hf⟩
+  ⟨hq.cfg.trans h.cfg, hq.addr.trans h.addr, hq.exc.trans h.exc, hf, QLog.trans h.log hq.log⟩
 
 /-- (C3, runs) from the moment the request for `p` is at the head of the queue, whatever the API does, the data frames
     handed to the CAN layer are exactly the next frames of the reference segmentation, in order, until the transfer
     completes (then all of them have been emitted) or fails. -/
 theorem run_segment (s0 : State) (r0 : Req) (p : Bytes) (hv : s0.cfg.valid = true) (hfr : Fresh r0 p)
-    (hfull : Full r0 p) (h1 : 1 ≤ p.length) (hn : p.length < 4294967296) :
+    (h1 : 1 ≤ p.length) (hn : p.length < 4294967296) :
     ∀ (steps : List Step) (s : State) (k : Nat), Live s0 s → TxInv0 s r0 p k → RunRes s0 r0 p k steps s := by
   intro steps
   induction steps with
@@ -1783,7 +2030,7 @@ theorem run_segment (s0 : State) (r0 : Req) (p : Bytes) (hv : s0.cfg.valid = tru
     | op o =>
       refine RunRes.skip (s1 := o.apply s) (fun l => rfl) (ih _ k ?_ (Op.inv0 s o r0 p k hi))
       exact ⟨(Op.same s o).cfg.trans hl.cfg, (Op.same s o).addr.trans hl.addr, (Op.exc s o).trans hl.exc,
-        Op.fcOk s o hl.fcOk⟩
+        Op.fcOk s o hl.fcOk, QLog.trans hl.log (Op.qlog s o)⟩
     | tx =>
       have hfc' := processTx_fcOk s hvs hl.fcOk
       by_cases hd : fcPass s = true
@@ -1794,7 +2041,7 @@ theorem run_segment (s0 : State) (r0 : Req) (p : Bytes) (hv : s0.cfg.valid = tru
           simp only [run, hd, if_true, Option.toList_none, List.nil_append, hs1]
         · exact hl.of_quiet (afterFcReq_quiet s stt) (by rw [← hs1]; exact hfc')
       · have hd' : fcPass s = false := by simpa using hd
-        rcases processTx_pass s r0 p k hvs hfr hfull h1 hn hl.exc hl.fcOk hd' hi with
+        rcases processTx_pass s r0 p k hvs hfr h1 hn hl.exc hl.fcOk hd' hi with
           ⟨ho, hi1, hq⟩ | ⟨d, hdk, ho, hi1, hq⟩ | ⟨d, hdk, hlen, ho, hfin⟩ | hfail
         · refine RunRes.skip (s1 := s.processTx.1) ?_ (ih _ k (hl.of_quiet hq hfc') hi1)
           intro l
@@ -1862,5 +2109,159 @@ theorem reqOf_fresh_short (s : State) (a : SendArgs) (p : Bytes) (hs : a.size = 
   refine ⟨⟨by simp [reqOf, hs], by simp [reqOf], ?_, rfl⟩, rfl⟩
   simp only [reqOf, hs, Int.toNat_natCast, Nat.sub_zero, List.drop_zero]
   exact List.IsPrefix.trans (List.take_prefix _ _) hp
+
+/-! ### C17 helpers: `consume`, laziness, completion of what a generator yields -/
+
+theorem consume_spec (r : Req) (n : Nat) (e : Bool) :
+    (r.consume n e).1.src = r.src.drop n ∧
+    (r.consume n e).1.consumed = r.consumed + min n r.src.length ∧
+    (r.consume n e).1.size = r.size ∧ (r.consume n e).1.id = r.id ∧
+    (∀ d, (r.consume n e).2 = some d → d = r.src.take n ∧ d.length = min n r.src.length) := by
+  unfold Req.consume
+  dsimp only
+  split
+  · simp [List.length_take]
+  · split
+    · cases e <;> simp [List.length_take]
+    · simp [List.length_take]
+
+theorem consume_within (r : Req) (n : Nat) (e : Bool) (hle : r.consumed ≤ r.size) (hn : n ≤ r.remaining) :
+    (r.consume n e).1.consumed ≤ r.size := by
+  rw [(consume_spec r n e).2.1]
+  simp only [Req.remaining] at hn
+  omega
+
+/-- a generator that ends early makes `consume` report it: `BadGeneratorError` (`none`) with `enforce_exact`, else the
+    values that were left together with the `depleted` flag -/
+theorem consume_early (r : Req) (n : Nat) (e : Bool) (hle : r.consumed ≤ r.size) (hn : n ≤ r.remaining)
+    (hs : r.src.length < n) :
+    (r.consume n e).2 = (if e then none else some r.src) ∧ (r.consume n e).1.depletedFlag = true := by
+  rw [consume_short r n e hle hn hs]; exact ⟨rfl, rfl⟩
+
+/-- what the generator yields, cut / completed with zeros to the declared size -/
+def completion (src : Bytes) (size : Nat) : Bytes := (src ++ List.replicate size 0).take size
+
+theorem completion_length (src : Bytes) (size : Nat) : (completion src size).length = size := by
+  simp [completion]
+
+theorem completion_full (src : Bytes) (size : Nat) (h : size ≤ src.length) : completion src size = src.take size := by
+  simp [completion, List.take_append_of_le_length h]
+
+/-- every request `send` can build (any generator, any declared size) streams the completion of what it yields -/
+theorem reqOf_fresh_any (s : State) (a : SendArgs) :
+    Fresh (reqOf s a) (completion a.src a.size.toNat) := by
+  refine ⟨⟨by simp [reqOf, completion_length], by simp [reqOf], ?_, rfl⟩, rfl⟩
+  simp only [reqOf, Nat.sub_zero, List.drop_zero, completion]
+  rw [List.take_append]
+  exact List.prefix_append _ _
+
+theorem carried_payload (tc : TxCfg) (p : Bytes) (k : Nat) (hk : 1 ≤ k) (hlt : carried tc p.length k < p.length) :
+    carried tc p.length (k + 1) = carried tc p.length k + ((p.drop (carried tc p.length k)).take (cfRoom tc)).length := by
+  rw [carried_step tc p.length k hk hlt, List.length_take, List.length_drop]
+  omega
+
+/-- (laziness) the number of values pulled from the generator so far is exactly what the frames built so far carry:
+    nothing while the request is queued, the `k` emitted frames while the transfer is in flight, plus the single
+    frame parked by the rate limiter -/
+theorem TxInv0.consumed {s : State} {r0 : Req} {p : Bytes} {k : Nat} (hv : s.cfg.valid = true) (hfr : Fresh r0 p)
+    (hi : TxInv0 s r0 p k) :
+    (TxQueued s r0 ∧ r0.consumed = 0) ∨
+    (∃ r, s.active = some r ∧ r.size = p.length ∧ r.id = r0.id ∧
+      ((s.standby = none ∨ 1 ≤ k) ∧ r.consumed = carried (TxCfg.of s.cfg s.addr) p.length k ∨
+       (k = 0 ∧ s.standby ≠ none ∧ r.consumed = firstPull (TxCfg.of s.cfg s.addr) p.length))) := by
+  have hvt := valid_of s.cfg s.addr hv
+  rcases hi with ⟨hk, hq⟩ | ⟨hk, d0, hd0, hsb, ⟨hst, hseg, hnff, hact, hfl⟩ | ⟨hst, hff, hact, hlen, hseq⟩⟩ |
+    ⟨hk, hff, hlt, hact, hlen, hseq, hstate⟩
+  · exact Or.inl ⟨hq, hfr.2⟩
+  · refine Or.inr ⟨_, hact, hfr.1.size, rfl, Or.inr ⟨hk, by rw [hsb]; simp, ?_⟩⟩
+    rw [hfr.adv_consumed]; simp [firstPull, hnff]
+  · refine Or.inr ⟨_, hact, hfr.1.size, rfl, Or.inr ⟨hk, by rw [hsb]; simp, ?_⟩⟩
+    rw [hfr.adv_consumed, carried_one _ _ hvt hff]; simp [firstPull, hff]
+  · exact Or.inr ⟨_, hact, hfr.1.size, rfl, Or.inl ⟨Or.inr hk, hfr.adv_consumed _⟩⟩
+
+/-- the active request never has more values pulled than its declared size -/
+theorem TxInv0.within_size {s : State} {r0 : Req} {p : Bytes} {k : Nat} (hv : s.cfg.valid = true) (hfr : Fresh r0 p)
+    (hi : TxInv0 s r0 p k) : ∀ r, s.active = some r → r.consumed ≤ r.size := by
+  have hvt := valid_of s.cfg s.addr hv
+  intro r hr
+  rcases TxInv0.consumed hv hfr hi with ⟨⟨-, ha, -⟩, -⟩ | ⟨r', hr', hsz, -, ⟨-, hc⟩ | ⟨-, -, hc⟩⟩
+  · rw [ha] at hr; cases hr
+  · rw [hr'] at hr; cases hr
+    rw [hc, hsz]; exact carried_le _ _ _
+  · rw [hr'] at hr; cases hr
+    rw [hc, hsz]; exact firstPull_le _ hvt _
+
+
+/-- number of values pulled so far from the generator of the request in flight -/
+def pulled (s : State) : Nat := match s.active with | some r => r.consumed | none => 0
+
+theorem TxInv0.pulled_cases {s : State} {r0 : Req} {p : Bytes} {k : Nat} (hv : s.cfg.valid = true) (hfr : Fresh r0 p)
+    (hi : TxInv0 s r0 p k) :
+    (k = 0 ∧ pulled s = 0) ∨ (k = 0 ∧ pulled s = firstPull (TxCfg.of s.cfg s.addr) p.length) ∨
+    (1 ≤ k ∧ carried (TxCfg.of s.cfg s.addr) p.length k < p.length ∧
+      pulled s = carried (TxCfg.of s.cfg s.addr) p.length k) := by
+  have hvt := valid_of s.cfg s.addr hv
+  rcases hi with ⟨hk, -, ha, -⟩ | ⟨hk, d0, hd0, hsb, ⟨hst, hseg, hnff, hact, hfl⟩ | ⟨hst, hff, hact, hlen, hseq⟩⟩ |
+    ⟨hk, hff, hlt, hact, hlen, hseq, hstate⟩
+  · exact Or.inl ⟨hk, by simp [pulled, ha]⟩
+  · refine Or.inr (Or.inl ⟨hk, ?_⟩)
+    simp only [pulled, hact]; rw [hfr.adv_consumed]; simp [firstPull, hnff]
+  · refine Or.inr (Or.inl ⟨hk, ?_⟩)
+    simp only [pulled, hact]; rw [hfr.adv_consumed, carried_one _ _ hvt hff]; simp [firstPull, hff]
+  · refine Or.inr (Or.inr ⟨hk, hlt, ?_⟩)
+    simp only [pulled, hact]; rw [hfr.adv_consumed]
+
+theorem firstPull_le_txDl (tc : TxCfg) (hv : ValidTx tc) (n : Nat) : firstPull tc n ≤ tc.txDl := by
+  unfold firstPull
+  split
+  · unfold ffRoom; split <;> omega
+  · rename_i h
+    have : sfShort tc n ∨ sfEscape tc n := by
+      by_cases hs : sfShort tc n
+      · exact Or.inl hs
+      · by_cases he : sfEscape tc n
+        · exact Or.inr he
+        · exact absurd ⟨hs, he⟩ h
+    have hdl := txDl_fix tc hv
+    rcases this with h | h
+    · have := (sfShort_iff tc n).mp h; omega
+    · have := h.2; omega
+
+/-- (laziness, per pass) between two states of the same transfer that are zero or one frame apart, at most one
+    frame's worth of values (`≤ tx_data_length`) has been pulled -/
+theorem pulled_step {s s' : State} {r0 : Req} {p : Bytes} {k k' : Nat} (hv : s.cfg.valid = true) (hfr : Fresh r0 p)
+    (hcfg : s'.cfg = s.cfg) (haddr : s'.addr = s.addr) (hi : TxInv0 s r0 p k) (hi' : TxInv0 s' r0 p k')
+    (hk : k' = k ∨ k' = k + 1) : pulled s' ≤ pulled s + s.cfg.txDl := by
+  have hvt := valid_of s.cfg s.addr hv
+  have h1 := TxInv0.pulled_cases hv hfr hi
+  have h2 := TxInv0.pulled_cases (by rw [hcfg]; exact hv) hfr hi'
+  rw [hcfg, haddr] at h2
+  have hfp := firstPull_le_txDl _ hvt p.length
+  have hc1 : carried (TxCfg.of s.cfg s.addr) p.length 1 ≤ s.cfg.txDl := by
+    simp only [carried]; simp only [Nat.zero_mul, Nat.add_zero, Nat.sub_self]
+    have : ffRoom (TxCfg.of s.cfg s.addr) p.length ≤ s.cfg.txDl := by
+      unfold ffRoom; simp only [TxCfg.of]; split <;> omega
+    simp; omega
+  have hcr : cfRoom (TxCfg.of s.cfg s.addr) ≤ s.cfg.txDl := by unfold cfRoom; simp only [TxCfg.of]; omega
+  simp only [TxCfg.of] at hfp
+  rcases h1 with ⟨hk0, hp⟩ | ⟨hk0, hp⟩ | ⟨hk1, hlt, hp⟩
+  · rcases h2 with ⟨-, hp'⟩ | ⟨-, hp'⟩ | ⟨hk1', -, hp'⟩
+    · omega
+    · rw [hp']; simp only [TxCfg.of]; omega
+    · have : k' = 1 := by omega
+      subst this; rw [hp']; omega
+  · rcases h2 with ⟨-, hp'⟩ | ⟨-, hp'⟩ | ⟨hk1', -, hp'⟩
+    · omega
+    · rw [hp', hp]; omega
+    · have : k' = 1 := by omega
+      subst this; rw [hp']; omega
+  · rcases h2 with ⟨hk0', -⟩ | ⟨hk0', -⟩ | ⟨hk1', -, hp'⟩
+    · omega
+    · omega
+    · rcases hk with hk | hk
+      · subst hk; rw [hp', hp]; omega
+      · subst hk
+        have := carried_step (TxCfg.of s.cfg s.addr) p.length k hk1 hlt
+        rw [hp', hp, this]; omega
 
 end Isotp.Proofs
